@@ -5,8 +5,8 @@ from vcheck import Case, gz, gzlist, gzmat, gopt, gblist
 PROP = "C17"
 LEVEL = "proof"
 GEN_UNITS = ["GenUtils", "GenKernels", "GenUtils2", "GenHandles", "GenFgSetup"]
-COQ_TARGETS = ["Props/C17.vo", "Props/C17w4.vo", "Props/C17Fg.vo", "Model/Harness.vo"]
-THEOREM_FILES = ["Props/C17.v", "Props/C17w4.v", "Props/C17Fg.v"]
+COQ_TARGETS = ["Props/C17.vo", "Props/C17w4.vo", "Props/C17w5.vo", "Props/C17Fg.vo", "Model/Harness.vo"]
+THEOREM_FILES = ["Props/C17.v", "Props/C17w4.v", "Props/C17w5.v", "Props/C17Fg.v"]
 INCLUDE = ["w3gen"]   # wave 3: the functions the translator generates since then (GenUtils3, GenUtils3b, GenKernels3, GenMethods*):
                        # their bridge lemmas / laws (Props/W3*.v) and their differential stream run inside this check
 COQ_IMPORTS = ("From Coq Require Import Reals List ZArith Bool.\n"
@@ -19,7 +19,9 @@ RULE = ("exhaustive over small shapes/index sets + seeded random stream; a case 
         "Khatri-Rao operands, tensors with more cells than a narrow index dtype holds, helper outputs fed into the next helper; "
         "wave 4: row operands in int8 / int16 / int32 with more rows than the dtype counts (129..300 rows, 33k rows for int16), "
         "np.argsort on repeated keys up to length 40 (stable kind = model, default kind = any valid argsort), every observed "
-        "intersect / setdiff result judged by the full-strength contract (failures attributed to A-41 only under its exact trigger)")
+        "intersect / setdiff result judged by the full-strength contract (failures attributed to A-41 only under its exact trigger); "
+        "wave 5: SIGNED integer rows as an input class of the four row helpers (exhaustive single-row pairs over {-1,0,1}^2, random "
+        "2..3-column operands with entries in [-3, 3], all layouts, int64 / int32 / int8)")
 EXPLANATION = ("Theorems are stated over Gen/GenUtils.v, regenerated from pyttb_utils.py on this run; the correspondence "
                "stream additionally runs the same generated functions against pyttb on explicit inputs (guards the translator).")
 
@@ -226,6 +228,29 @@ def gen_cases(rng, tier):
         for op in ("ismember", "intersect", "setdiff", "union"):
             cases.append(Case(op, {"a": short, "b": long_, "k": k, "lay": lay}, True))
             cases.append(Case(op, {"a": long_, "b": short, "k": k, "lay": lay}, True))
+    # --- wave 5: SIGNED integer rows as a class of its own (the property quantifies over all integer row matrices, not only
+    #     over subscripts): any row -> key encoding that is injective only on non-negative entries (mixed radix with
+    #     extent = column maximum + 1, bit packing, ...) makes different rows coincide, e.g. (-1, 1) and (1, 0).
+    #     Exhaustive: one search row against one source row over {-1, 0, 1}^2 (81 pairs, membership + intersection);
+    #     random: 2..3 columns, entries in [-3, 3], with and without repeated rows, all four helpers.
+    sgn = [[x, y] for x in (-1, 0, 1) for y in (-1, 0, 1)]
+    for r_ in sgn:
+        for q_ in sgn:
+            cases.append(Case("ismember", {"a": [r_], "b": [q_], "k": 2}, True))
+            if r_ != q_ and (r_[0] < 0 or r_[1] < 0 or q_[0] < 0 or q_[1] < 0):
+                cases.append(Case("intersect", {"a": [r_, q_], "b": [q_], "k": 2}, True))
+    for _ in range(400 if big else 80):
+        k = rng.randint(2, 3)
+        a = [[rng.randint(-3, 3) for _ in range(k)] for _ in range(rng.randint(1, 6))]
+        b = [[rng.randint(-3, 3) for _ in range(k)] for _ in range(rng.randint(1, 6))]
+        if rng.random() < 0.5:
+            b = b + [list(a[rng.randrange(len(a))])]           # at least one common row
+        if rng.random() < 0.5:
+            a = [list(x) for x in dict.fromkeys(map(tuple, a))]
+            b = [list(x) for x in dict.fromkeys(map(tuple, b))]
+        lay = [rng.choice(LAYOUTS), rng.choice(["int64", "int64", "int32", "int8"])]
+        for op in ("ismember", "intersect", "setdiff", "union"):
+            cases.append(Case(op, {"a": a, "b": b, "k": k, "lay": lay}, True))
     for _ in range(5 if big else 2):       # int16 with > 32767 source rows: membership only (the model's row sort is quadratic)
         nlong = rng.randint(32800, 33500)
         vals = rng.sample(range(-32768, 32768), nlong + 1)
@@ -844,10 +869,12 @@ def _rows_contract(c, o):
 # ---- known findings -----------------------------------------------------------------------------------------
 
 def _a41_dup_before_common(c):
-    """A-41, exact request-level trigger = a41_trigger of Proofs/C17A41.v (theorems C17_a41_intersect_exact: tt_intersect_rows
-    meets the full contract exactly outside it; C17_a41_setdiff_outside: so does tt_setdiff_rows outside it; that setdiff fails
-    everywhere inside is checked by this stream and was compared exhaustively with pyttb on 3 146 small requests): some row r of A that also occurs in B is not the row of A at position
-    rank_A(r) (its rank among the distinct rows of A) — i.e. r's first occurrence in A comes after a repeated row of A."""
+    """A-41, exact request-level trigger = a41_trigger of Proofs/C17A41.v: some row r of A that also occurs in B is not the row of
+    A at position rank_A(r) (its rank among the distinct rows of A) — i.e. r's first occurrence in A comes after a repeated row
+    of A. Theorems over the regenerated helpers (wave 5, Proofs/C17A41b.v): BOTH helpers meet the contract judged by
+    _rows_contract (A[result] = the distinct rows of A in / not in B as a multiset) IF AND ONLY IF the request is outside this
+    class (C17_a41_intersect_perm_exact, C17_a41_setdiff_perm_exact; ordered versions C17_a41_intersect_exact,
+    C17_a41_setdiff_exact), so a contract failure outside the trigger cannot come from the code the theorems are stated over."""
     if c.op not in ("intersect", "setdiff"):
         return False
     A, B = c.args["a"], c.args["b"]
